@@ -362,6 +362,8 @@ func cmdProps(args []string) {
 			aj, bj := a.JSON(), b.JSON()
 			if fixed != nil {
 				aj, bj, kind, edits = fixed[i].A, fixed[i].B, "replayed", nil
+			} else if i < len(c14Crafted) {
+				aj, bj, kind, edits = []byte(c14Crafted[i][0]), []byte(c14Crafted[i][1]), "crafted", nil
 			}
 			if !isValidSpec(aj) || !isValidSpec(bj) {
 				rep.Skipped["invalid"]++
@@ -740,9 +742,25 @@ func cmdC15(args []string) {
 	fmt.Printf("c15: %d evaluations, %d distinct non-trivial, %d violations, %d model cases\n", rep.Evaluations, rep.DistinctNontrivial, len(rep.Violations), ncase)
 }
 
+// c14Crafted: pairs built around the bookkeeping of the analyser rather than around one edit: a base definition that only an
+// allOf of an unreferenced definition names is renamed (the composing definition sorts before its base and after it);
+// a definition used by a request body and by a response; a parameter moved from the path item to the operation
+var c14Crafted = [][2]string{{
+	`{"swagger":"2.0","info":{"title":"t","version":"1"},"paths":{},"definitions":{"Cat":{"allOf":[{"$ref":"#/definitions/Pet"},{"type":"object","properties":{"claws":{"type":"integer"}}}]},"Pet":{"type":"object","properties":{"name":{"type":"string"}}},"Zebra":{"allOf":[{"$ref":"#/definitions/Horse"},{"type":"object","properties":{"stripes":{"type":"integer"}}}]},"Horse":{"type":"object","properties":{"name":{"type":"string"}}}}}`,
+	`{"swagger":"2.0","info":{"title":"t","version":"1"},"paths":{},"definitions":{"Cat":{"allOf":[{"$ref":"#/definitions/Animal"},{"type":"object","properties":{"claws":{"type":"integer"}}}]},"Animal":{"type":"object","properties":{"name":{"type":"string"}}},"Zebra":{"allOf":[{"$ref":"#/definitions/Equid"},{"type":"object","properties":{"stripes":{"type":"integer"}}}]},"Equid":{"type":"object","properties":{"name":{"type":"string"}}}}}`,
+}, {
+	`{"swagger":"2.0","info":{"title":"t","version":"1"},"paths":{"/pets/{id}":{"parameters":[{"name":"id","in":"path","required":true,"type":"string"},{"name":"trace","in":"header","type":"string"}],"get":{"operationId":"getPet","responses":{"200":{"description":"ok","schema":{"$ref":"#/definitions/Pet"}}}},"put":{"operationId":"putPet","parameters":[{"name":"body","in":"body","schema":{"$ref":"#/definitions/Pet"}}],"responses":{"204":{"description":"done"}}}}},"definitions":{"Pet":{"type":"object","properties":{"name":{"type":"string"},"tag":{"type":"string"}}}}}`,
+	`{"swagger":"2.0","info":{"title":"t","version":"1"},"paths":{"/pets/{id}":{"parameters":[{"name":"id","in":"path","required":true,"type":"string"}],"get":{"operationId":"getPet","parameters":[{"name":"trace","in":"header","type":"string"}],"responses":{"200":{"description":"ok","schema":{"$ref":"#/definitions/Pet"}}}},"put":{"operationId":"putPet","parameters":[{"name":"body","in":"body","schema":{"$ref":"#/definitions/Pet"}}],"responses":{"204":{"description":"done"}}}}},"definitions":{"Pet":{"type":"object","required":["name"],"properties":{"name":{"type":"string"}}}}}`,
+}}
+
 // c15Crafted: pairs whose reports hold entries that agree in everything but the depth of their node (a property and a
 // property of it both become required; a description added to an operation and to one of its parameters)
 var c15Crafted = [][2]string{{
 	`{"swagger":"2.0","info":{"title":"t","version":"1"},"paths":{"/pets":{"post":{"operationId":"addPet","parameters":[{"name":"limit","in":"query","type":"integer"},{"name":"pet","in":"body","schema":{"type":"object","properties":{"owner":{"type":"object","properties":{"email":{"type":"string"},"address":{"type":"object","properties":{"zip":{"type":"string"}}}}},"name":{"type":"string"}}}}],"responses":{"200":{"description":"ok"}}}}}}`,
 	`{"swagger":"2.0","info":{"title":"t","version":"1"},"paths":{"/pets":{"post":{"operationId":"addPet","description":"adds a pet","parameters":[{"name":"limit","in":"query","type":"integer","description":"how many"},{"name":"pet","in":"body","schema":{"type":"object","required":["owner"],"properties":{"owner":{"type":"object","required":["email","address"],"properties":{"email":{"type":"string"},"address":{"type":"object","required":["zip"],"properties":{"zip":{"type":"string"}}}}},"name":{"type":"string"}}}}],"responses":{"200":{"description":"ok"}}}}}}`,
+}, {
+	// entries that agree in every field: two headers of one response change their type the same way (the location of a header
+	// difference does not name the header), the same extension is added to two tags, to two security definitions
+	`{"swagger":"2.0","info":{"title":"t","version":"1"},"tags":[{"name":"a"},{"name":"b"}],"securityDefinitions":{"k1":{"type":"apiKey","in":"header","name":"X-K1"},"k2":{"type":"apiKey","in":"header","name":"X-K2"}},"paths":{"/pets":{"get":{"operationId":"listPets","responses":{"200":{"description":"ok","headers":{"X-Rate-Limit":{"type":"integer"},"X-Rate-Remaining":{"type":"integer"}}}}}}}}`,
+	`{"swagger":"2.0","info":{"title":"t","version":"1"},"tags":[{"name":"a","x-owner":"team"},{"name":"b","x-owner":"team"}],"securityDefinitions":{"k1":{"type":"apiKey","in":"header","name":"X-K1","x-internal":true},"k2":{"type":"apiKey","in":"header","name":"X-K2","x-internal":true}},"paths":{"/pets":{"get":{"operationId":"listPets","responses":{"200":{"description":"ok","headers":{"X-Rate-Limit":{"type":"boolean"},"X-Rate-Remaining":{"type":"boolean"}}}}}}}}`,
 }}
